@@ -1,11 +1,3 @@
-import os as _os, sys as _sys
-_sys.path.insert(0, _os.path.dirname(_os.path.dirname(_os.path.abspath(__file__))))
-try:
-    import gen_parrots as _gp
-    _gp.register()          # adds the Gen/Parrots.v translator to lib/gen.py's GENERATORS when C03 is the property being checked
-except Exception as _e:     # never break the registry for the other properties
-    _sys.stderr.write("C03: cannot register the parrot translator: %r\n" % (_e,))
-
 ENTRY = dict(
     runner="C03", pkg="./cmd/c03", corr=["Corr.C03Corr"], gen=["parrots"], n=dict(quick=6, thorough=200),
     rule="Gen/Parrots.v is regenerated before the proof build: go/parser lists every Hello* ClientHelloID of u_common.go (aliases, "
